@@ -337,7 +337,14 @@ class StmtMixin:
                         names = [self.exc_name(e) for e in h.type.elts]
                     else:
                         names = [self.exc_name(h.type)]
-                if exc_matches(r.exc, names):
+                caught = exc_matches(r.exc, names)
+                if not caught and r.exc == "OtherError" and names is not None:
+                    # OtherError stands for ANY exception class outside the ones a contract names (e.g. FileNotFoundError, ValueError):
+                    # a handler for some other class (OSError, LookupError, ...) catches SOME of them, so both outcomes are explored
+                    narrow = {"TimeoutError", "RuntimeError", "OperationalError", "IntegrityError"}
+                    if any(n not in narrow for n in names) and self.ctx.choose(2) == 1:
+                        caught = True
+                if caught:
                     saved = st.exc
                     st.exc = r.exc
                     if h.name:
